@@ -11,6 +11,32 @@ fn fresh(version: Version) -> Vec<u8> {
 
 pub fn run(name: &str) -> R {
     Some(match name {
+        // C03: "unallocated entries are blank" - MS-CFB 2.6.3: all zero except the three links (NOSTREAM)
+        "c03_unallocated_entries_are_blank" => {
+            for version in [Version::V3, Version::V4] {
+                let sl = version.sector_len();
+                // (a) the unused slots of a fresh directory sector, (b) the slot of a removed stream
+                let mut c = CompoundFile::create_with_version(version, Cursor::new(Vec::new())).unwrap();
+                c.create_stream("/a").unwrap().write_all(&[1u8; 10]).unwrap();
+                c.create_stream("/b").unwrap().write_all(&[2u8; 10]).unwrap();
+                c.remove_stream("/a").unwrap();
+                c.flush().unwrap();
+                let img = c.into_inner().into_inner();
+                let dir = 2 * sl; // directory sector is sector 1
+                let per = sl / 128;
+                for slot in 0..per {
+                    let e = &img[dir + 128 * slot..dir + 128 * (slot + 1)];
+                    if e[66] != 0 { continue; } // allocated
+                    for (i, b) in e.iter().enumerate() {
+                        let want = if (68..80).contains(&i) { 0xffu8 } else { 0u8 };
+                        if *b != want {
+                            return Some(Err(format!("{:?}: unallocated slot {} has byte {:#04x} at offset {} (expected {:#04x})", version, slot, b, i, want)));
+                        }
+                    }
+                }
+            }
+            Ok("every unallocated slot is zero except its three NOSTREAM links".into())
+        }
         // F5a (C11): root entry's never-validated start sector; mini-stream growth walks it unchecked
         "c11_root_start_sector_out_of_range" => {
             let mut img = fresh(Version::V3);
